@@ -73,7 +73,9 @@ def expectile_scenario(rng, **kw):
 
 
 # ----------------------------------------------------------------------------------------- balance
-def balance_case(res, rng, i, cases, meta):
+def balance_case(res, rng, i, cases, meta, unit=None):
+    """unit: multiply the targets by this factor (small-unit scenarios: the estimator is scale equivariant, so the balance must hold
+    to the same relative accuracy; a convergence test that is absolute for small coefficient norms stops these fits early)"""
     regime = ['n>m', 'n>m', 'n>m', 'n=m'][i % 4]
     scn = expectile_scenario(rng, regime=regime, max_n=60 if res.tier == 'quick' else 200, max_m=16 if res.tier == 'quick' else 40,
                              weights=['float', 'int', 'zeros', 'none', 'float'][i % 5])
@@ -81,8 +83,15 @@ def balance_case(res, rng, i, cases, meta):
     if tau is None:
         tau = round(rng.uniform(0.02, 0.98), 3)
     tol = [1e-9, 1e-6, 1e-4][i % 3]
+    if unit is not None:
+        scn['y'] = scn['y'] * unit
+        tol = [1e-6, 1e-8, 1e-4][i % 3]
+        if tau == 0.5:
+            tau = 0.3
     scn['kw'].update(expectile=tau, tol=tol, max_iter=300)
     d = gen_models.describe(scn)
+    if unit is not None:
+        d['y_unit'] = unit
     try:
         gam = gen_models.build_gam(scn)
         if scn['w'] is None:
@@ -121,7 +130,9 @@ def balance_case(res, rng, i, cases, meta):
     res.count('balance tau=%s' % ('0.5' if tau == 0.5 else ('<0.5' if tau < 0.5 else '>0.5')))
     res.count('balance weights:' + d['weights'])
     nontriv = float(pos) > 0 and float(neg) > 0 and len(y) >= 3
-    res.case(('balance', i), sample=dict(tau=tau, n=len(y), m=int(B.shape[1]), pos=float(pos), neg=float(neg), resid=float(resid), ridge=float(ridge), bound=bound) if i < 2 else None,
+    if unit is not None:
+        res.count('balance y unit:%g' % unit)
+    res.case(('balance', i, unit), sample=dict(tau=tau, n=len(y), m=int(B.shape[1]), pos=float(pos), neg=float(neg), resid=float(resid), ridge=float(ridge), bound=bound) if i < 2 else None,
              nontrivial=nontriv)
     if abs(resid) > frac_of_float(bound):
         res.violations.append(dict(what='converged ExpectileGAM fit does not balance the weighted residuals at the requested expectile', finding=None, input=inp,
@@ -305,7 +316,7 @@ def run(res):
                 '(c) fit_quantile traces: ExpectileGAM.fit and _get_quantile_ratio are wrapped from the harness; quantile uniform(0.02,0.98) or extreme, tol in {0.05,0.01,0.001,1e-9}, '
                 'max_iter 1..25, starting expectile random, model fitted or not beforehand; the recorded ratios are fed to the binary64 bisection machine built from the generated loop '
                 'pieces and Coq compares the expectile sequence bit for bit, the number of refits, ValueError or not and the final expectile; the property statement is probed directly '
-                '(final ratio within tol or budget used or the bracket cannot be halved any further, direction of each step, expectile strictly inside (0,1)).  (d) argument rejection of quantile / tol / max_iter.  (e) regression probes for the repaired S11: the former witnesses (12 points, quantile 0.999, tol 1e-9, max_iter 100) must stop through the stall exit without ValueError, expectile strictly inside (0,1).')
+                '(final ratio within tol or budget used or the bracket cannot be halved any further, direction of each step, expectile strictly inside (0,1)).  (a2) the balance scenarios again with the targets in small units (factor 1e-3 .. 1e-8, tol 1e-6 / 1e-8 / 1e-4): scale equivariance -- every fit that reports convergence must balance to the same relative accuracy.  (c2) directed fit_quantile traces: n = 200, quantile 2e-6..3e-6 above k/200, tol 1e-6, max_iter 25: exit iff within tol, stalled or max_iter refits.  (d) argument rejection of quantile / tol / max_iter.  (e) regression probes for the repaired S11: the former witnesses (12 points, quantile 0.999, tol 1e-9, max_iter 100) must stop through the stall exit without ValueError, expectile strictly inside (0,1).')
     common.standard_prove(res, 'Props/C18.v', gen_targets=['links', 'dists', 'stats', 'fitquantile'], extra=['Model/C18Check.vo'])
     warnings.simplefilter('ignore')
     import pygam
@@ -313,6 +324,9 @@ def run(res):
     # (a)
     for i in range(42 if quick else 500):
         balance_case(res, rng, i, cases, meta)
+    # (a') the same in small units (targets of order 1e-3 .. 1e-8): every fit that reports convergence must balance to the same RELATIVE accuracy
+    for i in range(24 if quick else 240):
+        balance_case(res, rng, i, cases, meta, unit=10.0 ** -(3 + i % 6))
     # (b)
     for i in range(14 if quick else 150):
         half_case(res, rng, i)
@@ -346,6 +360,28 @@ def run(res):
         res.count('trace refits:%s' % ('0' if rec['refits'] == 0 else ('1-3' if rec['refits'] <= 3 else '4+')))
         res.case(('trace', i), sample=dict(quantile=quantile, tol=tol, max_iter=max_iter, ratios=rec['ratios'][:6], expectiles=rec['refit_expectiles'][:6]) if i in (0, 3) else None,
                  nontrivial=rec['refits'] >= 1)
+    # (c') directed traces: n = 200 (the ratio moves in steps of 1/200), quantile 2e-6 .. 3e-6 above a grid value, tol = 1e-6: the request
+    #      cannot be met, the search must run out of its budget (or stall) -- never return with a gap in (tol, tol + something]
+    for i in range(4 if quick else 24):
+        nprng = np.random.RandomState(rng.randrange(1 << 30))
+        Xd = nprng.uniform(0, 10, (200, 1))
+        yd = np.sin(Xd[:, 0]) + nprng.normal(0, 0.5, 200)
+        k = [180, 50, 100, 20, 150, 190][i % 6]
+        quantile = k / 200.0 + rng.uniform(2e-6, 3e-6)
+        tol, max_iter = 1e-6, 25
+        gam = pygam.ExpectileGAM(pygam.s(0, n_splines=[20, 10][i % 2]))
+        inp = dict(directed='n=200, quantile just above %d/200' % k, quantile=quantile, tol=tol, max_iter=max_iter, X=Xd.tolist(), y=yd.tolist(), model='ExpectileGAM(s(0))')
+        rec = traced_fit_quantile(gam, Xd.copy(), yd.copy(), quantile, max_iter, tol, None)
+        if rec['error'] is not None and not rec['ratios']:
+            res.count('directed trace: first fit raised %s' % type(rec['error']).__name__)
+            continue
+        st_exit = probe_trace(res, inp, quantile, tol, max_iter, rec, gam, Xd, yd)
+        hit_grid = any(abs(r - k / 200.0) < 1e-12 for r in rec['ratios'])
+        res.count('directed trace: ratio %s the grid value below the quantile' % ('hit' if hit_grid else 'never hit'))
+        res.count('directed trace stop:' + ('budget' if rec['refits'] == max_iter else ('stall' if st_exit else 'other')))
+        res.case(('directed', i), sample=dict(quantile=quantile, refits=rec['refits'], ratios=rec['ratios'][-4:]) if i < 1 else None, nontrivial=hit_grid)
+        cases.append(fq_coq_case(quantile, tol, max_iter, rec))
+        meta.append(dict(kind='trace', directed=k, quantile=quantile, tol=tol, max_iter=max_iter, refits=rec['refits'], ratios=rec['ratios']))
     # (d) argument checks
     rs = np.random.RandomState(rng.randrange(1 << 30))
     Xa = rs.rand(20, 1)
